@@ -6,7 +6,9 @@ Pipeline (cwd = /verif):
   2. lake build                 re-check the property's theorems, build the native driver; audit axioms
   3. cargo build                harness against /repo's working tree (path dependencies)
                                 (CONFIG `hooks: True`: with RUSTFLAGS=--cfg grmtools_verif into harness/target/hook,
-                                so that /repo's verification hooks are compiled in for that property only)
+                                so that /repo's verification hooks are compiled in for that property only;
+                                CONFIG `plain_release: True`: cfgrammar without debug assertions, as a shipped
+                                build has it, into harness/target/plain)
   4. vharness Cnn               run the real code on corpus + generated cases -> cases.txt, impl.txt
   5. gvdriver < cases.txt       model answers (M), spec answers (S), validator verdicts (V)
   6. compare, classify, match known findings, write evidence/Cnn.json, exit code
@@ -114,7 +116,14 @@ def harness_build(log, cfg):
         # builds of the properties that do not use a hook are not invalidated
         env["RUSTFLAGS"] = "--cfg grmtools_verif"
         env["CARGO_TARGET_DIR"] = os.path.join(HARNESS, "target", "hook")
-    r = sh(["cargo", "build", "--release", "--offline"], cwd=HARNESS, env=env, timeout=3000)
+    cmd = ["cargo", "build", "--release", "--offline"]
+    if cfg.get("plain_release"):
+        # the harness normally builds cfgrammar with its debug assertions on (they are code under test for C17);
+        # a property about what a shipped build does (C20: guards must not live in `debug_assert!`s) is built
+        # as users build: plain release, in its own target directory
+        cmd += ["--config", "profile.release.package.cfgrammar.debug-assertions=false"]
+        env["CARGO_TARGET_DIR"] = os.path.join(HARNESS, "target", "plain")
+    r = sh(cmd, cwd=HARNESS, env=env, timeout=3000)
     log.write(r.stdout)
     return r.returncode == 0, r.stdout
 
@@ -274,7 +283,7 @@ def main():
 
 
 def run_cases(prop, cfg, tier, seed, replay, wd, log, counters, violations, tie_broken, stats):
-    hbin = os.path.join(HARNESS, "target/hook/release/vharness" if cfg.get("hooks") else "target/release/vharness")
+    hbin = os.path.join(HARNESS, "target/hook/release/vharness" if cfg.get("hooks") else "target/plain/release/vharness" if cfg.get("plain_release") else "target/release/vharness")
     dbin = os.path.join(LEAN, ".lake/build/bin/gvdriver")
     shards = cfg.get("shards", {}).get(tier, 1) if not replay else 1
     procs = []
